@@ -494,6 +494,10 @@ def annotate(
                     ).format(path=path, new_path=new_path)
                 )
             path = Path(new_path)
+            # Even a symlink whose target does not exist is not written
+            # through.
+            if path.is_symlink():
+                continue
         result += add_header_to_file(
             path=path,
             reuse_info=reuse_info,
